@@ -28,6 +28,14 @@ FK = {
 }
 
 
+REV_NAMES = ["zf", "yf", "xf", "wf", "vf", "uf", "tf", "sf", "rf", "qf", "pf", "of"]
+
+
+def fname(spec, i):
+    """f0, f1, .. or - spec["names"] == "rev" - names whose sorted order is the reverse of the declaration order."""
+    return REV_NAMES[i] if spec.get("names") == "rev" else f"f{i}"
+
+
 def concrete(kind):
     return FK[kind][0].replace("<T>", f"<{REC}>") if FK[kind][0] != "T" else REC
 
@@ -65,7 +73,8 @@ def gen_spec(rng, kind=None):
             for f in v["fields"]:
                 f["dbg_ignore"] = rng.random() < 0.5
     return {"kind": kind, "variants": variants, "generic": generic, "vals": vals, "entry": rng.choice(["attr", "derive"]), "copy": copy,
-            "co": co, "split": rng.random() < 0.2, "bound": rng.random() < 0.15}
+            "co": co, "split": rng.random() < 0.2, "bound": rng.random() < 0.15,
+            "names": rng.choice(["f", "f", "rev"]), "fattr": rng.randrange(3) if rng.random() < 0.2 else None}
 
 
 def type_text(spec, control=False):
@@ -89,11 +98,23 @@ def type_text(spec, control=False):
         head = "#[derive(Clone)]\n"
     bodies = []
     for v in spec["variants"]:
-        tys = [("#[debug(ignore)] " if (not control and spec.get("co") and f.get("dbg_ignore")) else "") + FK[f["kind"]][0] for f in v["fields"]]
+        parts = []
+        nf = len(v["fields"])
+        # a field-level `#[derive_ex(Clone(bound(..)))]` (keeps the defaults) on a field that is not the first one
+        fk = (1 + spec["fattr"] % (nf - 1)) if (spec.get("fattr") is not None and nf >= 2) else None
+        for i, f in enumerate(v["fields"]):
+            a = ""
+            if not control:
+                if spec.get("co") and f.get("dbg_ignore"):
+                    a += "#[debug(ignore)] "
+                if i == fk:
+                    a += "#[derive_ex(Clone(bound(..)))] "
+            ty = FK[f["kind"]][0]
+            parts.append(f"{a}{fname(spec, i)}: {ty}" if v["style"] == "named" else f"{a}{ty}")
         if v["style"] == "named":
-            bodies.append("{ " + ", ".join((t.replace("#[debug(ignore)] ", "#[debug(ignore)] " + f"f{i}: ", 1) if t.startswith("#[debug") else f"f{i}: {t}") for i, t in enumerate(tys)) + " }")
+            bodies.append("{ " + ", ".join(parts) + " }")
         elif v["style"] == "tuple":
-            bodies.append("(" + ", ".join(tys) + ")")
+            bodies.append("(" + ", ".join(parts) + ")")
         else:
             bodies.append("")
     if spec["kind"] == "struct":
@@ -111,7 +132,7 @@ def ctor(spec, vi, seed):
     head = "Ty" if spec["kind"] == "struct" else f"Ty::V{vi}"
     vals = [fval(f, seed) for f in v["fields"]]
     if v["style"] == "named":
-        return head + " { " + ", ".join(f"f{i}: {x}" for i, x in enumerate(vals)) + " }"
+        return head + " { " + ", ".join(f"{fname(spec, i)}: {x}" for i, x in enumerate(vals)) + " }"
     if v["style"] == "tuple":
         return head + "(" + ", ".join(vals) + ")"
     return head
@@ -124,7 +145,7 @@ def dump_fn(spec):
         head = "Ty" if spec["kind"] == "struct" else f"Ty::V{vi}"
         names = [f"x{i}" for i in range(len(v["fields"]))]
         if v["style"] == "named":
-            pat = head + " { " + ", ".join(f"f{i}: {n}" for i, n in enumerate(names)) + " }"
+            pat = head + " { " + ", ".join(f"{fname(spec, i)}: {n}" for i, n in enumerate(names)) + " }"
         elif v["style"] == "tuple":
             pat = head + "(" + ", ".join(names) + ")"
         else:
@@ -246,6 +267,13 @@ def core(rng):
                 {"style": "tuple", "fields": [{"kind": "paircc", "tag": 2}]}], "vals": [(0, 1), (1, 2), (1, 3), (2, 4), (2, 5)]})
             specs.append({"kind": "struct", "generic": True, "entry": entry, "copy": copy,
                           "variants": [{"style": "named", "fields": [{"kind": "T", "tag": 0}, {"kind": "recc", "tag": 1}]}], "vals": [(0, 1), (0, 2)]})
+    # field names in reverse-sorted order; a field-level attribute on a non-first field (same-typed neighbours, distinct values)
+    for style in ("named", "tuple"):
+        for fattr in (None, 0, 1):
+            specs.append({"kind": "struct", "generic": False, "entry": "attr" if fattr else "derive", "names": "rev", "fattr": fattr,
+                          "variants": [{"style": style, "fields": [{"kind": "rec", "tag": i} for i in range(3)]}], "vals": [(0, 1), (0, 2)]})
+            specs.append({"kind": "enum", "generic": False, "entry": "derive" if fattr else "attr", "names": "rev", "fattr": fattr, "variants": [
+                {"style": "unit", "fields": []}, {"style": style, "fields": [{"kind": "rec", "tag": i} for i in range(3)]}], "vals": [(0, 1), (1, 2), (1, 3)]})
     # more than ten fields (member names / indices whose text order differs from the declaration order)
     for style in ("tuple", "named"):
         specs.append({"kind": "struct", "generic": False, "entry": "attr", "variants": [{"style": style, "fields": [{"kind": "rec", "tag": i} for i in range(12)]}],
